@@ -162,3 +162,6 @@ Fixpoint sveqb (a b : sval) {struct a} : bool :=
   | STup p, STup q => sl p q
   | _, _ => false
   end.
+
+(* the two shapes of a recursive graph traversal the translator tells apart (Gen/GraphGen.v, Gen/TravGen.v) *)
+Inductive trav_shape := Memo | PerPath.
